@@ -232,6 +232,48 @@ def suite_memloc(ctx):
             if dec is None or dec[:4] != (exp[0] // 8, exp[1] // 8, a2, z2):
                 s.fail(dict(rec, observed='frame %s decodes to %s' % (sends[0].hex(), dec), required='widths %s, address %d, size %d' % (exp, a2, z2)))
         s.count('re-pointed')
+    # one MemoryLocation object, first sent by a client with one configuration, then by a client with another one (a tool that talks to two ECUs, or a
+    # configuration change between two calls): the second request follows the formats the object carries now, else the second configuration, else
+    # the smallest width - and a value that does not fit the width then in force is refused, never cut
+    for _ in range(ctx.n(300, 6000)):
+        a = rng.getrandbits(rng.choice([1, 8, 9, 16, 17, 24, 32, 40, 64]))
+        z = rng.getrandbits(rng.choice([1, 8, 9, 12, 13, 16, 17, 32]))
+        af, mf = rng.choice([(None, None), (None, None), (None, None), (rng.choice(VALID), None), (None, rng.choice(VALID))])
+        caf1, cmf1 = rng.choice([(None, None), (None, None), (rng.choice(VALID), None), (None, rng.choice(VALID))])
+        caf2, cmf2 = rng.choice([(rng.choice(VALID), rng.choice(VALID)), (None, 8), (8, None), (None, rng.choice(VALID)), (rng.choice(VALID), None)])
+        k = rng.choice(KINDS)
+        try:
+            ml = MemoryLocation(a, z, af, mf)
+        except Exception:  # noqa
+            continue
+
+        def call(client):
+            if k == 'read':
+                return client.read_memory_by_address(ml)
+            if k == 'write':
+                return client.write_memory_by_address(ml, b'\x01')
+            return client.request_download(ml) if k == 'download' else client.request_upload(ml)
+        c1, conn1 = cl.make_client(cl.Cfg(rt=4, p2=2, p2s=2), extra={'server_address_format': caf1, 'server_memorysize_format': cmf1})
+        cl.observe_outer(conn1, lambda: call(c1))
+        af2, mf2 = ml.address_format, ml.memorysize_format
+        c2, conn2 = cl.make_client(cl.Cfg(rt=4, p2=2, p2s=2), extra={'server_address_format': caf2, 'server_memorysize_format': cmf2})
+        cl.observe_outer(conn2, lambda: call(c2))
+        sends = [o[1] for o in conn2.log if o[0] == 'send']
+        exp = expected_widths(a, z, af2, mf2, caf2, cmf2)
+        s.evaluations += 1
+        rec = {'site': k + ' with a MemoryLocation used under two configurations', 'input': 'a=%d s=%d af=%s mf=%s first under server formats (%s, %s) [object formats afterwards (%s, %s)], then under (%s, %s)' % (
+            a, z, af, mf, caf1, cmf1, af2, mf2, caf2, cmf2)}
+        s.distinct.add(rec['input'])
+        if exp is None:
+            if sends:
+                s.fail(dict(rec, observed='sent ' + sends[0].hex(), required='out of domain: the value does not fit the width in force for the second call'))
+        elif not sends:
+            s.fail(dict(rec, observed='rejected', required='transmitted with widths %s' % (exp,)))
+        else:
+            dec = iso_decode(sends[0], {'read': 1, 'write': 1, 'download': 2, 'upload': 2}[k])
+            if dec is None or dec[:4] != (exp[0] // 8, exp[1] // 8, a, z):
+                s.fail(dict(rec, observed='frame %s decodes to %s' % (sends[0].hex(), dec), required='widths %s, address %d, size %d' % (exp, a, z)))
+        s.count('two_configs:' + ('refused' if exp is None else 'sent'))
     core.compare(s, lines, core.drv_batch(lines), impl, nontrivial=lambda i, o: o != 'reject')
     s.sample({'line': lines[5], 'impl': impl[5]})
     s.sample({'line': lines[-1], 'impl': impl[-1]})
